@@ -47,6 +47,7 @@ type ClientCfg struct {
 	JSON         bool
 	SendComp     string   // "" none
 	NilAccept    []string // names passed to WithAcceptCompression with nil constructors: a no-op
+	FailCodec    bool     // install a codec that fails to marshal marked messages
 	Accept       []string // custom algorithms in registration order (gzip is registered first by the library)
 	CompressMin  int
 	ReadMax      int
@@ -116,6 +117,7 @@ type CallPlan struct {
 	InterceptorErrAfter bool          // client-stream: the outermost handler interceptor returns the plan\'s error after the handler has sent its response
 	CloseTwice          bool          // server-stream client calls Close twice
 	clientLimit         bool          // C14: the call ends on the client's own read limit
+	unsendable          int           // C01: 1 + index of the request message the client's codec cannot marshal (0: none)
 	panicAfterCtx       bool
 	ReturnSendErr       bool     // the handler returns the error of a failed Send (as handlers do)
 	RecoverErr          *ErrPlan // what the WithRecover function returns
